@@ -363,32 +363,58 @@ def check(ctx):
     CNT = counters[0] if len(counters) == 1 else None
     OPS13 = {'<': _op.lt, '<=': _op.le, '==': _op.eq, '!=': _op.ne}
 
+    def ival(e, st, frame):
+        """value of an integer expression over the counter and locals that hold counter values, or None"""
+        try:
+            lin = N13.norm(e, {})
+        except Exception:      # noqa: BLE001
+            return None
+        if lin is None:
+            return None
+        tot = lin.const
+        for atom, k in lin.terms.items():
+            if atom == 'self.' + CNT:
+                v = st.fields['#cnt']
+            else:
+                v = st.locals.get((frame.id, atom))
+            if not (isinstance(v, str) and v.isdigit()):
+                return None
+            tot += k * int(v)
+        return tot
+
     def cnt_node(an_, n, before, after):
         a = n.ast
         if CNT and n.kind == 'stmt' and isinstance(a, (ast.AugAssign, ast.Assign)):
             tg = a.target if isinstance(a, ast.AugAssign) else (a.targets[0] if len(a.targets) == 1 else None)
+            rhs = ast.BinOp(left=ast.Name(id=tg.id, ctx=ast.Load()) if isinstance(tg, ast.Name) else tg, op=a.op, right=a.value) if isinstance(a, ast.AugAssign) and tg is not None else a.value
             if tg is not None and is_self_attr(tg, CNT):
-                newv = N13.norm(ast.BinOp(left=tg, op=a.op, right=a.value) if isinstance(a, ast.AugAssign) else a.value, FrameEnv(n.frame))
-                cur = before.fields['#cnt']
-                if cur in ('0', '1', '2') and set(newv.terms) <= {'self.' + CNT} and newv.terms.get('self.' + CNT, 0) in (0, 1):
-                    v = int(cur) * newv.terms.get('self.' + CNT, 0) + newv.const
-                    return after.with_field('#cnt', str(v) if 0 <= v <= 3 else 'bad')
-                return after.with_field('#cnt', 'bad')
+                v = ival(rhs, before, n.frame)
+                return after.with_field('#cnt', str(v) if v is not None and 0 <= v <= 3 else 'bad')
+            if isinstance(tg, ast.Name):
+                v = ival(rhs, before, n.frame)
+                if v is not None and 0 <= v <= 3:
+                    s2 = after.copy()
+                    s2.locals[(n.frame.id, tg.id)] = str(v)
+                    return s2
         return after
 
     def cnt_refine(an_, test, truth, st, frame):
         if not CNT:
             return NotImplemented
         t = test
-        if is_self_attr(t, CNT):          # truthiness of the counter
-            cur = st.fields['#cnt']
+        if is_self_attr(t, CNT) or (isinstance(t, ast.Name) and str(st.locals.get((frame.id, t.id), '')).isdigit()):          # truthiness of the counter
+            cur = st.fields['#cnt'] if is_self_attr(t, CNT) else st.locals[(frame.id, t.id)]
             return (st if (cur != '0') == truth else None) if cur in ('0', '1', '2', '3') else st
-        r = _cmpn(N13, t, FrameEnv(frame), truth)
-        if r is not None and set(r[0].terms) == {'self.' + CNT}:
-            cur = st.fields['#cnt']
-            if cur in ('0', '1', '2', '3'):
-                return st if OPS13[r[1]](r[0].terms['self.' + CNT] * int(cur) + r[0].const, 0) else None
-            return st
+        if isinstance(t, ast.Compare) and len(t.ops) == 1:
+            r = _cmpn(N13, t, {}, truth)
+            if r is not None and r[0].terms:
+                tot = r[0].const
+                for atom, k in r[0].terms.items():
+                    v = st.fields['#cnt'] if atom == 'self.' + CNT else st.locals.get((frame.id, atom))
+                    if not (isinstance(v, str) and v.isdigit()):
+                        return NotImplemented
+                    tot += k * int(v)
+                return st if OPS13[r[1]](tot, 0) else None
         return NotImplemented
     o.count()
     if CNT is None:
